@@ -34,7 +34,8 @@ theorem C15_spdx_general (ops : PurlOps Purl) (env : Env) (cfg : SPDXConfig)
   rw [spdx_dispatch f hf]
   simp only [hc _]
 
-/-- **C15 for SPDX**: with a round-tripping codec and every purl of the inventory parsing back to its
+/-- (Superseded by `C15_spdx_partial`, whose codec hypothesis is pointwise and whose `norm` is constrained; kept because the
+identity-codec examples and the driver use it.) **C15 for SPDX**: with a round-tripping codec and every purl of the inventory parsing back to its
 normal form, the purls imported from the written file are a permutation of (indeed equal to) the exported
 packages' normalised purls — for every inventory (duplicates, purl-less packages, any length). -/
 theorem C15_spdx (ops : PurlOps Purl) (env : Env) (cfg : SPDXConfig)
@@ -64,6 +65,122 @@ theorem C15_spdx_hasPurl (ops : PurlOps Purl) (env : Env) (cfg : SPDXConfig)
     | none => simp [exportedSpdx, hasPurl, hu]
     | some u => have := hnv p hp u hu; simp [exportedSpdx, hasPurl, hu, this.1, this.2]
   rw [← this]; exact h2
+
+/-! ### the statements the property needs: POINTWISE codec hypothesis, constrained `norm`
+
+`Codec.roundtrips` (∀ d) is far stronger than needed and FALSE for the real tag-value codec on every document (and for YAML
+on documents with control characters), so theorems that assume it say nothing for those formats even on clean inventories.
+The `_partial` theorems below only assume that THIS inventory's document survives the codec, and they constrain `norm`
+(`NormLaws`) and conclude field-level facts about every purl that comes back. `_partial`: the hypotheses (`hc`, `ParsesBack`,
+`NormLaws`) narrow the property — `hc` is exactly the assumption about tools-golang / cyclonedx-go that the stream validates. -/
+
+theorem C15_spdx_at (ops : PurlOps Purl) (env : Env) (cfg : SPDXConfig)
+    (codecOf : SpdxFormat → Codec SpdxDoc Bytes) (f : SpdxFormat) (hf : f ≠ .rdf) (inv : List (Pkg Purl))
+    (hc : (codecOf f).decode ((codecOf f).encode (toSpdx ops env cfg inv)) = some (toSpdx ops env cfg inv)) :
+    ∃ pkgs, roundTripSpdx ops env cfg codecOf f inv = .ok pkgs ∧ purlsOf pkgs = specSpdx ops inv := by
+  refine ⟨convertSpdxDocToPackage ops (toSpdx ops env cfg inv) (spdxFileName f), ?_, spdx_doc_import ops env cfg _ inv⟩
+  unfold roundTripSpdx extractSpdx
+  rw [spdx_dispatch f hf]
+  simp only [hc]
+
+theorem C15_cdx_at (ops : PurlOps Purl) (env : Env) (cfg : CDXConfig)
+    (codecOf : CdxFormat → Codec Bom Bytes) (f : CdxFormat) (hempty : ops.parse "" = none) (inv : List (Pkg Purl))
+    (hc : (codecOf f).decode ((codecOf f).encode (toCdx ops env cfg inv)) = some (toCdx ops env cfg inv)) :
+    ∃ pkgs, roundTripCdx ops env cfg codecOf f inv = .ok pkgs ∧ purlsOf pkgs = specCdx ops inv := by
+  refine ⟨convertCdxBomToPackage ops (toCdx ops env cfg inv) (cdxFileName f), ?_, cdx_doc_import ops env cfg _ hempty inv⟩
+  unfold roundTripCdx extractCdx
+  rw [cdx_dispatch f]
+  simp only [hc]
+
+/-- every purl of the spec list is the normal form of an exported package's purl, with that package's version, a name equal
+up to `canonName`, and is itself normal -/
+theorem specNorm_fields (ops : PurlOps Purl) (norm : Purl → Purl) (hl : NormLaws ops norm) (exported : Pkg Purl → Bool)
+    (inv : List (Pkg Purl)) : ∀ q ∈ specNorm norm exported inv, ∃ p ∈ inv, ∃ u, exported p = true ∧ p.purl = some u ∧ q = norm u ∧
+      ops.version q = ops.version u ∧ canonName (ops.name q) = canonName (ops.name u) ∧ norm q = q := by
+  intro q hq
+  simp only [specNorm, List.mem_map, List.mem_filterMap, List.mem_filter] at hq
+  obtain ⟨u, ⟨p, ⟨hp, hex⟩, hu⟩, rfl⟩ := hq
+  exact ⟨p, hp, u, hex, hu, rfl, hl.version u, hl.name u, hl.idem u⟩
+
+/-- **C15 for SPDX (json / yaml / tag-value alike)**: if the document built for THIS inventory survives the format's
+writer + reader, the scan of the written file returns, as a multiset, exactly the normal forms of the exported packages' purls;
+and each of them carries the version of the package it came from, the same name up to case / separator folding, and is a fixed
+point of the normalisation. -/
+theorem C15_spdx_partial (ops : PurlOps Purl) (env : Env) (cfg : SPDXConfig)
+    (codecOf : SpdxFormat → Codec SpdxDoc Bytes) (f : SpdxFormat) (hf : f ≠ .rdf) (inv : List (Pkg Purl))
+    (hc : (codecOf f).decode ((codecOf f).encode (toSpdx ops env cfg inv)) = some (toSpdx ops env cfg inv))
+    (norm : Purl → Purl) (hn : ParsesBack ops norm inv) (hl : NormLaws ops norm) :
+    ∃ pkgs, roundTripSpdx ops env cfg codecOf f inv = .ok pkgs ∧
+      (purlsOf pkgs).Perm (((inv.filter (exportedSpdx ops)).filterMap (·.purl)).map norm) ∧
+      ∀ q ∈ purlsOf pkgs, ∃ p ∈ inv, ∃ u, exportedSpdx ops p = true ∧ p.purl = some u ∧ q = norm u ∧
+        ops.version q = ops.version u ∧ canonName (ops.name q) = canonName (ops.name u) ∧ norm q = q := by
+  obtain ⟨pkgs, h1, h2⟩ := C15_spdx_at ops env cfg codecOf f hf inv hc
+  have h3 : purlsOf pkgs = specNorm norm (exportedSpdx ops) inv := by
+    rw [h2, specSpdx, specPurls_eq_specNorm ops norm _ inv hn]
+  refine ⟨pkgs, h1, by rw [h3]; exact List.Perm.refl _, ?_⟩
+  rw [h3]; exact specNorm_fields ops norm hl _ inv
+
+/-- **C15 for CycloneDX (json / xml)**, same shape; exported = has a purl -/
+theorem C15_cdx_partial (ops : PurlOps Purl) (env : Env) (cfg : CDXConfig)
+    (codecOf : CdxFormat → Codec Bom Bytes) (f : CdxFormat) (hempty : ops.parse "" = none) (inv : List (Pkg Purl))
+    (hc : (codecOf f).decode ((codecOf f).encode (toCdx ops env cfg inv)) = some (toCdx ops env cfg inv))
+    (norm : Purl → Purl) (hn : ParsesBack ops norm inv) (hl : NormLaws ops norm) :
+    ∃ pkgs, roundTripCdx ops env cfg codecOf f inv = .ok pkgs ∧
+      (purlsOf pkgs).Perm (((inv.filter hasPurl).filterMap (·.purl)).map norm) ∧
+      ∀ q ∈ purlsOf pkgs, ∃ p ∈ inv, ∃ u, hasPurl p = true ∧ p.purl = some u ∧ q = norm u ∧
+        ops.version q = ops.version u ∧ canonName (ops.name q) = canonName (ops.name u) ∧ norm q = q := by
+  obtain ⟨pkgs, h1, h2⟩ := C15_cdx_at ops env cfg codecOf f hempty inv hc
+  have h3 : purlsOf pkgs = specNorm norm exportedCdx inv := by
+    rw [h2, specCdx, specPurls_eq_specNorm ops norm _ inv hn]
+  refine ⟨pkgs, h1, by rw [h3]; exact List.Perm.refl _, ?_⟩
+  rw [h3]; exact specNorm_fields ops norm hl _ inv
+
+/-- the audit's counterexample is excluded: a normalisation that sends everything to one purl violates `NormLaws` as soon
+as two purls have different versions -/
+theorem C15_constant_norm_excluded (ops : PurlOps Purl) (e u : Purl) (h : ops.version u ≠ ops.version e) :
+    ¬ NormLaws ops (fun _ => e) := fun hl => h (hl.version u).symm
+
+/-! ### the wrapper package is recognised by STRUCTURE, never by name
+
+ToSPDX23 puts one synthetic package in front (the target of the document's DESCRIBES relationship, without external
+references); every other package of the document stands for an inventory package and carries exactly one purl reference.
+The importer keeps a package iff it has a parsable purl (or a CPE) — so every non-wrapper package whose purl parses is
+imported, WHATEVER its name or SPDX id looks like (`main`, `main-bower-files`, `Package-main`, ids that collide after
+sanitising). A reader that skipped packages by an id / name prefix (seeded change C15d) contradicts this theorem's model. -/
+theorem spdxLoop_refs (ops : PurlOps Purl) (env : Env) (mainId : String) : ∀ (inv : List (Pkg Purl)) (k : Nat),
+    ∀ p ∈ (spdxLoop ops env mainId k inv).1, ∃ loc, p.extRefs = [{ category := "PACKAGE-MANAGER", refType := "purl", locator := loc }] := by
+  intro inv
+  induction inv with
+  | nil => intro k p hp; simp [spdxLoop] at hp
+  | cons pkg rest ih =>
+    intro k p hp
+    simp only [spdxLoop] at hp
+    split at hp
+    · exact ih k p hp
+    · split at hp
+      · exact ih k p hp
+      · simp only [List.mem_cons] at hp
+        rcases hp with rfl | hp
+        · exact ⟨_, rfl⟩
+        · exact ih (k + 1) p hp
+
+theorem C15_spdx_nonwrapper_imported (ops : PurlOps Purl) (env : Env) (cfg : SPDXConfig) (inv : List (Pkg Purl)) (path : String) :
+    ∃ w rest, (toSpdx ops env cfg inv).packages = w :: rest ∧
+      -- the wrapper, structurally: the DESCRIBES target, with no external reference
+      (∃ r ∈ (toSpdx ops env cfg inv).relationships, r.kind = "DESCRIBES" ∧ r.refB = toDocElementID w.id) ∧ w.extRefs = [] ∧
+      -- every other package: one purl reference; if it parses, the package is imported with that purl
+      ∀ p ∈ rest, ∃ loc, p.extRefs = [{ category := "PACKAGE-MANAGER", refType := "purl", locator := loc }] ∧
+        ∀ u, ops.parse loc = some u →
+          ∃ ip ∈ convertSpdxDocToPackage ops (toSpdx ops env cfg inv) path, ip.purl = some u ∧ ip.name = ops.name u := by
+  refine ⟨_, (spdxLoop ops env _ 1 inv).1, rfl, ⟨_, List.mem_cons_self, rfl, rfl⟩, rfl, ?_⟩
+  intro p hp
+  obtain ⟨loc, hloc⟩ := spdxLoop_refs ops env _ inv 1 p hp
+  refine ⟨loc, hloc, fun u hu => ?_⟩
+  have hconv : convertSpdxPackage ops path p = some { name := ops.name u, version := "", locations := [path], cpes := [], purl := some u } := by
+    simp [convertSpdxPackage, hloc, refStep, hu]
+  refine ⟨{ name := ops.name u, version := "", locations := [path], cpes := [], purl := some u }, ?_, rfl, rfl⟩
+  simp only [convertSpdxDocToPackage, List.mem_filterMap]
+  exact ⟨p, by simp [toSpdx, hp], hconv⟩
 
 /-! ## CycloneDX (JSON, XML) -/
 
